@@ -97,9 +97,60 @@ M("c05_close_reason_not_validated", ["C05"],
   ("lomond/message.py", "                reason = reason_bytes.decode('utf-8')", "                reason = reason_bytes.decode('utf-8', 'replace')"))
 M("c05_revert_fix_is_text", ["C05"],
   ("lomond/frame_parser.py", "        if frame.fin and not frame.is_control:\n            self._is_text = False", "        if frame.fin:\n            self._is_text = False"))
-M("c05_validator_reset_per_frame", ["C05", "C02"],
+M("c05_validator_reset_per_frame", ["C05"],
   ("lomond/frame_parser.py", "            and frame.fin\n            and (frame.is_text or frame.is_continuation)", "            and (frame.is_text or frame.is_continuation)"))
 M("c05_no_incremental_validation", ["C05"],
   ("lomond/frame_parser.py", "        if self._compression:\n            return self.read(length)", "        if True:\n            return self.read(length)"))
 M("c05_validate_twice", ["C05"],
   ("lomond/message.py", "            text = payload.decode('utf-8')\n", "            text = payload.decode('utf-8')\n            text.encode('utf-8')\n"), equivalent=True)
+
+# ---- C02 -----------------------------------------------------------------
+M("c02_frames_in_reply_read_dropped", ["C02"],
+  ("lomond/parser.py", "                    data = _buffer[sep_index:]\n", "                    data = b''\n"))
+M("c02_remaining_not_saved", ["C02"],
+  ("lomond/parser.py", "                    self._awaiting.remaining = remaining\n", "                    pass\n"))
+M("c02_validator_reset_per_chunk", ["C02", "C05"],
+  ("lomond/parser.py", "        valid, _, _, _ = self.utf8_validator.validate(bytes(data))",
+   "        self.utf8_validator.reset()\n        valid, _, _, _ = self.utf8_validator.validate(bytes(data))"))
+M("c02_zero_copy_single_read", ["C02"],
+  ("lomond/parser.py", "                    self._awaiting = self._gen.send(_buffer[:])\n                    del _buffer[:]\n\n            # Awaiting a read until",
+   "                    self._awaiting = self._gen.send(chunk if len(chunk) == len(_buffer) else _buffer[:])\n                    del _buffer[:]\n\n            # Awaiting a read until"))
+M("c02_sep_search_only_new_chunk", ["C02", "C10"],
+  ("lomond/parser.py", "                sep_index = _buffer.find(sep)\n", "                sep_index = _buffer.find(sep, max(0, len(_buffer) - len(chunk)))\n"))
+M("c02_max_bytes_checked_per_read", ["C02"],
+  ("lomond/parser.py", "                    _check_length(len(_buffer))\n", "                    _check_length(len(_buffer) + 4)\n"))
+M("c02_header_split_strict", ["C02"],
+  ("lomond/parser.py", "                chunk = data[pos:pos + remaining]\n", "                chunk = data[pos:pos + min(remaining, 4096)]\n"),
+  equivalent=True)
+
+# ---- C03 -----------------------------------------------------------------
+M("c03_len_le_126", ["C03"],
+  ("lomond/frame.py", "        if length < 126:", "        if length <= 126:"))
+M("c03_16bit_boundary", ["C03"],
+  ("lomond/frame.py", "        elif length < (1 << 16):", "        elif length < (1 << 16) + 1:"))
+M("c03_xor_lanes_swapped", ["C03"],
+  ("lomond/mask.py", "    data[2::4] = data[2::4].translate(c)\n    data[3::4] = data[3::4].translate(d)",
+   "    data[2::4] = data[2::4].translate(d)\n    data[3::4] = data[3::4].translate(c)"))
+M("c03_mask_bit_omitted_for_empty", ["C03"],
+  ("lomond/frame.py", "        mask_bit = 1 << 7 if mask else 0", "        mask_bit = 1 << 7 if (mask and len(payload)) else 0"))
+M("c03_rsv1_always", ["C03", "C06"],
+  ("lomond/session.py", "        frame = Frame(opcode, payload=bytearray(data))\n        self.write(frame.to_bytes())\n        log.debug(' SRV <- CLI : %r', frame)\n\n    def send_compressed",
+   "        frame = Frame(opcode, payload=bytearray(data), rsv1=1 if opcode == 2 else 0)\n        self.write(frame.to_bytes())\n        log.debug(' SRV <- CLI : %r', frame)\n\n    def send_compressed"))
+M("c03_payload_not_copied", ["C03"],
+  ("lomond/websocket.py", "        if not isinstance(data, bytes):\n            raise TypeError('data argument must be bytes')\n        if compress and self.state.compression:",
+   "        if not isinstance(data, (bytes, bytearray)):\n            raise TypeError('data argument must be bytes')\n        if compress and self.state.compression:"))
+M("c03_revert_fix_close_reason", ["C03"],
+  ("lomond/websocket.py", "        if len(frame_bytes) > 125:\n            raise ValueError('close reason should be <= 123 bytes')\n", ""))
+M("c03_ping_limit_126", ["C03"],
+  ("lomond/websocket.py", "            raise ValueError('ping data should be <= 125 bytes')", "            pass"))
+M("c03_json_kwargs_and_obj_merged", ["C03"],
+  ("lomond/websocket.py", "        if kwargs and _obj is not Ellipsis:", "        if kwargs and _obj is None:"))
+M("c03_close_code_little_endian", ["C03"],
+  ("lomond/frame.py", "    _pack_close_code = struct.Struct(b'!H').pack", "    _pack_close_code = struct.Struct(b'<H').pack"))
+M("c03_header_and_body_two_writes", ["C03"],
+  ("lomond/session.py", "        frame = Frame(opcode, payload=bytearray(data))\n        self.write(frame.to_bytes())",
+   "        frame = Frame(opcode, payload=bytearray(data))\n        _b = frame.to_bytes()\n        self.write(_b)"),
+  equivalent=True)
+M("c03_text_encoded_surrogatepass", ["C03"],
+  ("lomond/websocket.py", "        payload = text.encode('utf-8')", "        payload = text.encode('utf-8', 'surrogatepass')"),
+  equivalent=True)
